@@ -113,14 +113,43 @@ fn gen_structured(r: &mut Rng, pkt_len: usize, helpers: &[i32]) -> Vec<(u8, u8, 
         }
         k += 1;
     }
-    // optional local function: callx +1 ; exit ; <fn body> ; exit
-    if r.chance(1, 3) {
+    // optional chain of local functions (depth 1..4): main calls f1, f1 may call f2, ...
+    // each function uses its own stack slot and callee-saved registers, may call a helper
+    if r.chance(1, 2) {
+        let depth = 1 + r.below(4) as usize;
+        // main: callx +1 ; exit
         p.push((0x85, 0, 1, 0, 1));
         p.push((0x95, 0, 0, 0, 0));
-        p.push((0xbf, 6, 0, 0, 0));
-        p.push((0x7b, 10, 7, -8, 0));
-        p.push((0x79, 0, 10, -8, 0));
-        p.push((0x0f, 0, 6, 0, 0));
+        for k in 0..depth {
+            let last = k + 1 == depth;
+            let mut f: Vec<(u8, u8, u8, i16, i32)> = Vec::new();
+            f.push((0xb7, 6, 0, 0, rnd_imm(r)));            // r6 = const (callee-saved, restored for the caller)
+            f.push((0x7b, 10, 7, -8, 0));                    // [r10-8] = r7
+            f.push((0x0f, 7, 6, 0, 0));                      // r7 += r6
+            if !helpers.is_empty() && r.chance(1, 2) {
+                let id = *r.pick(helpers);
+                for (dd, ss) in [(1u8, 7u8), (2, 8), (3, 9), (4, 6), (5, 6)] {
+                    f.push((0xbf, dd, ss, 0, 0));
+                }
+                f.push((0x85, 0, 0, 0, id));
+                f.push((0x0f, 8, 0, 0, 0));                  // r8 += helper result
+            }
+            if !last {
+                f.push((0x85, 0, 1, 0, 0));                  // callx next (displacement fixed below)
+            }
+            f.push((0x79, 2, 10, -8, 0));                    // r2 = [r10-8]
+            f.push((0xbf, 0, 2, 0, 0));                      // r0 = r2
+            f.push((0x0f, 0, 6, 0, 0));                      // r0 += r6
+            f.push((0x0f, 0, 8, 0, 0));                      // r0 += r8
+            f.push((0x95, 0, 0, 0, 0));
+            if !last {
+                // the callee starts right after this function
+                let call_idx = f.iter().position(|i| i.0 == 0x85 && i.2 == 1).unwrap();
+                f[call_idx].4 = (f.len() - call_idx - 1) as i32;
+            }
+            p.extend(f);
+        }
+        return p;
     }
     p.push((0x95, 0, 0, 0, 0));
     p
